@@ -140,6 +140,31 @@ var lastKinds = []lastKind{
 	{name: "if-return-else-return", mk: func(id *int) []*Stmt {
 		return []*Stmt{{K: "if", E: cmp(">", v("a"), lit(1)), Body: []*Stmt{{K: "return"}}, HasElse: true, Else: []*Stmt{evS(nid(id)), {K: "return"}}}}
 	}},
+	// terminating statements other than return: whether `return Normal()` has to be appended is decided by the compiler's own
+	// terminating-statement analysis (panic calls, loops without condition and break, switches whose clauses all terminate)
+	{name: "panic", mk: func(id *int) []*Stmt { return []*Stmt{{K: "panic", E: lit(nid(id))}} }},
+	{name: "if-yield-else-panic", yields: true, mk: func(id *int) []*Stmt {
+		return []*Stmt{{K: "if", E: cmp(">", v("a"), lit(1)), Body: []*Stmt{yS(lit(25))}, HasElse: true, Else: []*Stmt{{K: "panic", E: lit(nid(id))}}}}
+	}},
+	{name: "if-panic-else-return", mk: func(id *int) []*Stmt {
+		return []*Stmt{{K: "if", E: cmp(">", v("a"), lit(1)), Body: []*Stmt{{K: "panic", E: lit(nid(id))}}, HasElse: true, Else: []*Stmt{evS(nid(id)), {K: "return"}}}}
+	}},
+	{name: "if-elseif-else-all-terminating-with-yield", yields: true, mk: func(id *int) []*Stmt {
+		return []*Stmt{{K: "if", E: cmp(">", v("a"), lit(2)), Body: []*Stmt{yS(lit(26)), {K: "return"}},
+			ElseIf: &Stmt{K: "if", E: cmp(">", v("a"), lit(0)), Body: []*Stmt{{K: "panic", E: lit(nid(id))}}, HasElse: true, Else: []*Stmt{yS(lit(27)), {K: "return"}}}}}
+	}},
+	{name: "switch-yield-default-panic", yields: true, mk: func(id *int) []*Stmt {
+		return []*Stmt{{K: "switch", E: v("a"), Cases: []*Case{{Exprs: []*Expr{lit(1)}, Body: []*Stmt{yS(lit(38)), {K: "return"}}}, {Default: true, Body: []*Stmt{{K: "panic", E: lit(nid(id))}}}}}}
+	}},
+	{name: "switch-all-clauses-return", mk: func(id *int) []*Stmt {
+		return []*Stmt{{K: "switch", E: v("a"), Cases: []*Case{{Exprs: []*Expr{lit(1)}, Body: []*Stmt{evS(nid(id)), {K: "return"}}}, {Default: true, Body: []*Stmt{{K: "return"}}}}}}
+	}},
+	{name: "for-infinite-yield-return", yields: true, mk: func(id *int) []*Stmt {
+		return []*Stmt{{K: "decl", Name: "j", E: lit(0)}, {K: "for", Body: []*Stmt{evS(nid(id)), yS(v("j")), {K: "incdec", Name: "j", Op: "++"}, {K: "if", E: cmp(">", v("j"), lit(1)), Body: []*Stmt{{K: "return"}}}}}}
+	}},
+	{name: "for-infinite-trivial-return", mk: func(id *int) []*Stmt {
+		return []*Stmt{{K: "decl", Name: "j", E: lit(0)}, {K: "for", Body: []*Stmt{evS(nid(id)), {K: "incdec", Name: "j", Op: "++"}, {K: "if", E: cmp(">", v("j"), lit(1)), Body: []*Stmt{{K: "return"}}}}}}
+	}},
 	{name: "closure-decl-call", mk: func(id *int) []*Stmt {
 		return []*Stmt{{K: "closure", Name: "f", Fn: &FuncLit{Body: []*Stmt{evS(nid(id), v("a"))}}}, {K: "callstmt", Name: "f"}}
 	}},
